@@ -10,7 +10,8 @@ RULE = ('Random interleavings of order submissions (1-4 portfolios, 1-5 quoted a
         'Exactly-once checker over the recorded history with an independent hours predicate; per portfolio sells '
         'before buys and submission order per side (seen both in Portfolio.history and in the delivered '
         'transactions); pending queue == unfilled orders after every request. Non-trivial: some order waited through '
-        '>=1 out-of-hours update and some batch had both sides; distinct = distinct (request kind, side) sequence.')
+        '>=1 out-of-hours update and some batch had both sides; distinct = distinct (request kind, side) sequence.'
+        ' Order ids may repeat across portfolios (fills are matched by (portfolio, id)).')
 ASSUMPTIONS = [
     'times are non-decreasing and every ordered asset has a quote (the quantifier); UTC timestamps',
     'fill order across different portfolios is not observable through the API and is only recorded',
